@@ -361,6 +361,13 @@ fn grammar_strings(fx: &Fixture) -> Vec<String> {
             }
         }
     }
+    // every salt length and every hash length 0..=72 (both algorithms), all other fields valid
+    for a in ["argon2id", "argon2i"] {
+        for n in 0..=72usize {
+            v.push(format!("${}$v=19$m=8,t=1,p=1${}${}", a, e.encode(vec![0x5au8; n]), e.encode([6u8; 32])));
+            v.push(format!("${}$v=19$m=8,t=1,p=1${}${}", a, e.encode([2u8; 16]), e.encode(vec![0xa5u8; n])));
+        }
+    }
     // structural mutants of a valid string
     let valid = fx.valid_pwstr.clone();
     let fields: Vec<&str> = valid.split('$').collect();
@@ -553,7 +560,7 @@ pub fn run() -> i32 {
     let mut ctx = Ctx::new("C04", "exploration");
     let nshards = 16usize;
     let tier = ctx.tier;
-    ctx.rule = "product: every byte-string consumer (21 AEAD open forms incl. from_bytes parsers, 4 stream pull forms, 5 signature verification/opening forms, MAC verification classic+object, password-hash string consumers) x every input length 0..=2*overhead+64 (+256 thorough) x 5 content classes (zeros, 0xff, seeded random, authentic message cut to the length, authentic with one byte mutated); authentic stream messages carrying every tag byte 0..=255 at 3 message lengths through all pull forms; password-hash string grammar product (6 algorithm tokens x 5 versions x 8 memory x 6 time x 4 parallelism x 7 salt x 6 hash fields) plus structural mutants (every field deleted/duplicated/swapped, every character deleted / duplicated / replaced by each of 14 alphabet characters, every prefix, '$' and ',' inserted at every position); oracle: each call returns (Ok or Err) — no unwind, no abort/signal (16 child processes), largest single allocation <= 16 MiB + 8 x input length; non-trivial = every executed call".into();
+    ctx.rule = "product: every byte-string consumer (21 AEAD open forms incl. from_bytes parsers, 4 stream pull forms, 5 signature verification/opening forms, MAC verification classic+object, password-hash string consumers) x every input length 0..=2*overhead+64 (+256 thorough) x 5 content classes (zeros, 0xff, seeded random, authentic message cut to the length, authentic with one byte mutated); authentic stream messages carrying every tag byte 0..=255 at 3 message lengths through all pull forms; password-hash string grammar product (6 algorithm tokens x 5 versions x 8 memory x 6 time x 4 parallelism x 7 salt x 6 hash fields), every salt length and every hash length 0..=72 for both algorithms, plus structural mutants (every field deleted/duplicated/swapped, every character deleted / duplicated / replaced by each of 14 alphabet characters, every prefix, '$' and ',' inserted at every position); oracle: each call returns (Ok or Err) — no unwind, no abort/signal (16 child processes), largest single allocation <= 16 MiB + 8 x input length; non-trivial = every executed call".into();
     ctx.assume("caller-owned output buffers are sized as the API documents for the given input length; cost parameters reaching verify are bounded (m <= 64 KiB, t <= 3) as the property states");
     let exe = std::env::current_exe().unwrap();
     let seed = ctx.seed;
